@@ -846,8 +846,11 @@ func verifC28Mutate(r *verifutil.Rand, src []byte, from int) []byte {
 		nm = 2 + r.Intn(2)
 	}
 	for k := 0; k < nm; k++ {
-		switch c := r.Intn(21); {
-		case c == 20 && len(fields) > 0: // a box size within 64 bytes of 2^32 (uint32 sums with the preceding box wrap)
+		c := r.Intn(41)
+		near := c == 40
+		c %= 20
+		switch {
+		case near && len(fields) > 0: // a box size within 64 bytes of 2^32 (uint32 sums with the preceding box wrap)
 			if fd, ok := verifC28PickSize(r, fields); ok && fd.off+4 <= len(b) {
 				verifC28Put32(b, fd.off, 0xffffffff-uint32(r.Intn(64)))
 			}
@@ -1205,11 +1208,11 @@ func TestVerifC28MkCorpus(t *testing.T) {
 	out = append(out, "# the same through the real HTTP server in a child process")
 	out = append(out, fmt.Sprintf("e2e list 2 %s %s %s %s", verifC28InitOracle(a1c.data), verifutil.Hex(a1c.data), verifC28InitOracle(ts0), verifutil.Hex(ts0)))
 	out = append(out, "# round 3: box sizes within 64 bytes of 2^32 (uint32 sum with the preceding box wraps), through the real server")
-	for _, tg := range []string{"moov", "mvhd", "moof", "traf", "tfhd", "trun", "mdat", "mtxi"} {
+	for _, tg := range []string{"moov", "moof", "tfhd", "mtxi"} {
 		c := cp(a2u.data)
 		verifC28Put32(c, bytes.Index(c, []byte(tg))-4, 0xfffffff0)
 		out = append(out, fmt.Sprintf("e2e listse 1 %s %s", verifC28InitOracle(c), verifutil.Hex(c)))
-		if tg == "moov" || tg == "moof" || tg == "trun" {
+		if tg == "moov" {
 			ev2, _ := verifC28Events(c, verifC28ParseTracks(a2u.tracks))
 			out = append(out, fmt.Sprintf("e2e get %s %s %s", verifC28InitOracle(c), ev2, verifutil.Hex(c)))
 			out = append(out, parse(c))
